@@ -216,6 +216,15 @@ Theorem C07_release_safe : forall k terms nl s tid e id, CInv k terms nl s ->
 Proof. exact release_safe. Qed.
 Print Assumptions C07_release_safe.
 
+(* cloning is enabled for the owner and for everybody who can borrow from an owned edge
+   (the edge itself or a child edge of a node reachable from it) *)
+Theorem C07_retain_enabled : forall k terms nl s tid o e id, In o (cown s) ->
+  borrow_b (cn s) nl (snd o) e = true -> eref e = RN id ->
+  exists s', step k terms nl s (ARetain tid e) = Some (s', None) /\ In (tid, e) (cown s') /\
+             cn s' = rc_inc id (cn s).
+Proof. exact retain_enabled. Qed.
+Print Assumptions C07_retain_enabled.
+
 (* 8. the table-only projection (what is replayed on the implementation's log) simulates
    the full model *)
 Theorem C07_erase_sim : forall k terms nl s a s' r, CInv k terms nl s ->
